@@ -221,8 +221,11 @@ struct SubH {
     cw: Arc<CountWaker>,
     waker: Waker,
     /// wakers this subscriber was polled with earlier (a task may be polled with a fresh waker each
-    /// time); their wakes count too, but the one supplied to the LATEST Pending poll must be woken
-    old: Vec<Arc<CountWaker>>,
+    /// time); their wakes count too, but the one supplied to the LATEST Pending poll must be woken.
+    /// Every waker object has an identity (numbered in order of creation, as the driver does) and the
+    /// number of wakes already reported.
+    old: Vec<(Arc<CountWaker>, usize, usize)>,
+    wid: usize,
     seen: usize,
     seen_cur: usize,
     /// the LATEST poll answered Pending (with the current waker) and no wake was seen since
@@ -232,24 +235,52 @@ struct SubH {
 
 impl SubH {
     fn total_wakes(&self) -> usize {
-        self.cw.0.load(AO::SeqCst) + self.old.iter().map(|c| c.0.load(AO::SeqCst)).sum::<usize>()
+        self.cw.0.load(AO::SeqCst) + self.old.iter().map(|c| c.0 .0.load(AO::SeqCst)).sum::<usize>()
     }
     /// from now on this subscriber is polled with a new waker
     fn fresh_waker(&mut self) {
         let cw = Arc::new(CountWaker(AtomicUsize::new(0)));
         self.waker = Waker::from(cw.clone());
-        self.old.push(std::mem::replace(&mut self.cw, cw));
+        let old = std::mem::replace(&mut self.cw, cw);
+        self.old.push((old, self.wid, self.seen_cur));
+        self.wid = next_wid();
         self.seen_cur = 0;
     }
+    /// the waker objects of this subscriber woken since the last report, with multiplicity
+    fn newly_woken(&mut self, k: usize, out: &mut Vec<(usize, usize)>) {
+        for (c, wid, seen) in self.old.iter_mut() {
+            let n = c.0.load(AO::SeqCst);
+            for _ in *seen..n {
+                out.push((k, *wid));
+            }
+            *seen = n;
+        }
+        let n = self.cw.0.load(AO::SeqCst);
+        for _ in self.seen_cur..n {
+            out.push((k, self.wid));
+        }
+    }
+}
+
+thread_local! {
+    static NEXT_WID: std::cell::Cell<usize> = std::cell::Cell::new(0);
+}
+fn next_wid() -> usize {
+    NEXT_WID.with(|c| {
+        let v = c.get();
+        c.set(v + 1);
+        v
+    })
 }
 
 fn new_subh(s: Subscriber<Val>) -> SubH {
     let cw = Arc::new(CountWaker(AtomicUsize::new(0)));
     let waker = Waker::from(cw.clone());
-    SubH { sub: Some(s), cw, waker, old: vec![], seen: 0, seen_cur: 0, cur_pending: false, registered: false }
+    SubH { sub: Some(s), cw, waker, old: vec![], wid: next_wid(), seen: 0, seen_cur: 0, cur_pending: false, registered: false }
 }
 
 pub fn run_line(line: &str, out: &mut String) {
+    NEXT_WID.with(|c| c.set(0));
     let (head, evs) = match line.split_once(" :: ") {
         Some((h, e)) => (h.trim(), e),
         None => (line.trim(), ""),
@@ -506,9 +537,11 @@ pub fn run_line(line: &str, out: &mut String) {
         // ---- wakes ----
         let mut wk = vec![];
         let mut stale_waker = false;
+        let mut woken_objs: Vec<(usize, usize)> = vec![];
         for (k, s) in subs.iter_mut().enumerate() {
             let n = s.total_wakes();
             if n > s.seen {
+                s.newly_woken(k, &mut woken_objs);
                 wk.push(format!("{}x{}", k, n - s.seen));
                 s.seen = n;
                 // C02: "wakes the waker supplied to that Pending poll" - the latest one
@@ -526,7 +559,13 @@ pub fn run_line(line: &str, out: &mut String) {
             line.push_str(" ok:wake=0");
         }
         if !wk.is_empty() {
-            line.push_str(&format!(" w{}", wk.join(",")));
+            // which waker OBJECTS were woken (subscriber:waker identity, with multiplicity), as the
+            // model's ObsWaker.wstep predicts
+            woken_objs.sort();
+            line.push_str(&format!(
+                " w{}",
+                woken_objs.iter().map(|(k, w)| format!("{k}:{w}")).collect::<Vec<_>>().join(",")
+            ));
         }
         // C19 read literally, independent of the specification: the counts equal the harness's own
         // inventory of live handles (it holds every clone, subscriber and weak reference itself)
